@@ -187,6 +187,8 @@ def main(argv=None):
             handle_failure(run, mod, o, known)
         if hasattr(mod, "post"):
             mod.post(run)
+        if tier == "thorough":
+            thorough_extras(run, pid)
     except WallClock:
         run.notes.append("undecided: wall-clock budget of %d s exhausted" % wall)
         print("UNDECIDED property=%s reason=wall-clock budget of %d s exhausted" % (pid, wall))
@@ -252,6 +254,50 @@ def main(argv=None):
               % (pid, tier, c["obligations"], c["discharged"], c["cover_queries"], len(run.violations), len(run.known),
                  len(run.undecided), ev["wall_s"]))
     return rc
+
+
+def thorough_extras(run, pid):
+    """Thorough tier = quick (with 180 s per query) + guards against an unsound or vacuous engine:
+       1. differential self-test of the PyVC engine against CPython, seeded by VERIF_SEED (disagreement = checker failure);
+       2. second-solver confirmation: a sample of the discharged obligations is re-decided by cvc5 (a `sat` there = checker failure);
+       3. the mutation catalogue of this property on scratch copies (survivors are recorded; they do not change the verdict)."""
+    import random
+    from .common.core import _solve_cvc5
+    # 1
+    try:
+        from .pyvc import selftest
+        checks, bad = selftest.run(run.seed, 150)
+        run.extra["engine_selftest"] = {"comparisons": checks, "disagreements": [str(b)[:200] for b in bad[:10]]}
+        if bad:
+            raise RuntimeError("PyVC engine disagrees with CPython on %d of %d comparisons: %s" % (len(bad), checks, bad[0]))
+    except ImportError:
+        pass
+    # 2
+    rnd = random.Random(run.seed)
+    proved = [o for o in run.obls if o.status == "proved" and not isinstance(o, Cover) and o.smt2 and "declare-datatypes" not in o.smt2]
+    sample = rnd.sample(proved, min(len(proved), 120))
+    agree = unknown = 0
+    for o in sample:
+        st, t, reason = _solve_cvc5(o.smt2, 20000)
+        if st == "unsat":
+            agree += 1
+        elif st == "sat":
+            raise RuntimeError("solver disagreement: z3 says unsat, cvc5 says sat for %s" % o.name)
+        else:
+            unknown += 1
+    run.extra["second_solver"] = {"sampled": len(sample), "cvc5_unsat": agree, "cvc5_unknown": unknown}
+    # 3
+    try:
+        sys.path.insert(0, os.path.join(core.VERIF, "tools"))
+        import run_mutants
+        from mutants.catalogue import MUTANTS
+        if pid in MUTANTS and not os.environ.get("VERIF_NO_MUTANTS"):
+            res = run_mutants.run(pid, wall=600)
+            run.extra["mutation_catalogue"] = {k: v for k, v in res.items()}
+            run.notes.append("mutation catalogue: %d killed, %d survived, %d undecided; harmless edits: %d green, %d alarms" % (
+                len(res["killed"]), len(res["survived"]), len(res["undecided"]), len(res["harmless_green"]), len(res["harmless_alarm"])))
+    except Exception as e:      # the catalogue is a self-test of the checker, never a verdict on the repository
+        run.notes.append("mutation catalogue not run: %r" % (e,))
 
 
 def mp_children():
